@@ -429,7 +429,15 @@ func runC16(c *fw.Ctx, idx int) fw.Result {
 		case "foreign":
 			rc2 := append([]gen.FastaRec{}, recs...)
 			b := []byte(rc2[at].Seq)
-			b[r.Intn(W)] = "JZ*0 .x#"[r.Intn(8)]
+			// any printable byte outside the 32 accepted characters (the whole set is covered over a
+			// run; the neighbours of the letters and of '-' and '?' in the ASCII table are among them)
+			foreign := []byte{}
+			for ch := 0x20; ch < 0x7f; ch++ {
+				if !strings.ContainsRune("ACGTRYSWKMBDHVNacgtryswkmbdhvn-?>", rune(ch)) {
+					foreign = append(foreign, byte(ch))
+				}
+			}
+			b[r.Intn(W)] = foreign[r.Intn(len(foreign))]
 			rc2[at].Seq = string(b)
 			data = []byte(layOut(r, rc2, lo))
 			mustErr = []bool{false, true, true, true}
